@@ -1449,3 +1449,6 @@ func (w *World) PathTuples(ret *ssa.Return, maxPaths int) ([][]*Expr, bool) {
 	walk(ret.Block(), InstrIndex(ret), start, 0)
 	return out, ok
 }
+
+// GlobalName is the repo-relative name of a package-level variable.
+func GlobalName(g *ssa.Global) string { return globalName(g) }
